@@ -128,8 +128,7 @@ Lemma conv_to_op d dev c ch dn nd at_ :
   conv_to defdt d dev (AOp c ch dn nd at_) =
   if guarded c then AOp c (gfix d dev (nargs ch dn) ch 0) dn (nd_to c d dev nd) (dflt c)
   else if cls_eqb c CCat then AOp c (map (cat_arg d) ch) dn (set_key k_output_device (dev_val dev) nd) (dflt c)
-  else if cls_eqb c CPermutation then AOp c (strip_list ch) dn nd (perm_attrs d (dflt c))
-  else if cls_eqb c CZero then AOp c (strip_list ch) dn (nd_to c d dev nd) (dflt c)
+  else if rebuilt_kw c then AOp c (strip_list ch) dn (nd_to c d dev nd) (dflt c)
   else AOp c (map (conv_to defdt d dev) ch) dn nd (dflt c).
 Proof.
   reflexivity.
@@ -156,8 +155,7 @@ Lemma to_safe_op c ch dn nd at_ :
   is_float_o (dtype_of (AOp c ch dn nd at_)) &&
   (if guarded c then sfix (nargs ch dn) ch 0
    else if cls_eqb c CCat then forallb to_safe_sub ch
-   else if cls_eqb c CPermutation then forallb is_index ch
-   else if cls_eqb c CZero then forallb (fun x => negb (is_diff x)) ch
+   else if rebuilt_kw c then forallb (kw_child_ok c) ch
    else forallb to_safe ch).
 Proof.
   reflexivity.
@@ -218,8 +216,7 @@ Proof.
     + f_equal. rewrite map_map. apply map_ext_Forall. eapply Forall_impl; [|exact CA]. simpl. auto.
     + assert (SS : strip_list (map strip ch) = strip_list ch).
       { rewrite !strip_list_map, map_map. apply map_ext. intros a. apply strip_strip. }
-      destruct (cls_eqb c CPermutation); [now rewrite SS|].
-      destruct (cls_eqb c CZero); [now rewrite SS|].
+      destruct (rebuilt_kw c); [now rewrite SS|].
       f_equal. rewrite map_map. apply map_ext_Forall. eapply Forall_impl; [|exact H]. simpl. auto.
 Qed.
 
@@ -243,9 +240,8 @@ Proof.
   destruct (guarded c).
   - rewrite !sfix_spec, firstn_map, skipn_map. f_equal; apply FB; auto using Forall_firstn, Forall_skipn.
   - destruct (cls_eqb c CCat); [apply FB; auto|].
-    destruct (cls_eqb c CPermutation); [apply FB; apply Forall_forall; intros x _; destruct x; reflexivity|].
-    destruct (cls_eqb c CZero); [|apply FB; auto].
-    apply FB. apply Forall_forall. intros x _. destruct x; reflexivity.
+    destruct (rebuilt_kw c); [|apply FB; auto].
+    apply FB. apply Forall_forall. intros x _. unfold kw_child_ok. destruct (cls_eqb c CPermutation); destruct x; reflexivity.
 Qed.
 Lemma to_safe_sub_strip x : to_safe_sub (strip x) = to_safe_sub x.
 Proof. destruct x; try reflexivity. apply (to_safe_strip (AOp c ch dn nd at_)). Qed.
@@ -353,8 +349,7 @@ Proof.
                    | Some d' => is_float d' = true /\
                        (if guarded c then sfix (nargs ch dn) ch 0
                         else if cls_eqb c CCat then forallb to_safe_sub ch
-                        else if cls_eqb c CPermutation then forallb is_index ch
-                        else if cls_eqb c CZero then forallb (fun x => negb (is_diff x)) ch
+                        else if rebuilt_kw c then forallb (kw_child_ok c) ch
                         else forallb to_safe ch) = true
                    | None => True
                    end).
@@ -393,8 +388,7 @@ Proof.
       * rewrite !sk_op. f_equal. rewrite !sk_list_map, map_map. apply map_ext_Forall. apply Forall_forall. intros x Hx.
         rewrite Forall_forall in H. specialize (H x Hx). destruct d as [d'|]; simpl; [|apply sk_strip].
         destruct SAFE as [F S]. apply TYP; auto. eapply forallb_In; eauto.
-      * destruct (cls_eqb c CPermutation); [rewrite !sk_op; now rewrite sk_list_strip|].
-        destruct (cls_eqb c CZero); [rewrite !sk_op; now rewrite sk_list_strip|].
+      * destruct (rebuilt_kw c); [rewrite !sk_op; now rewrite sk_list_strip|].
         rewrite !sk_op. f_equal. rewrite !sk_list_map, map_map. apply map_ext_Forall. apply Forall_forall. intros x Hx.
         rewrite Forall_forall in H. apply (H x Hx). destruct d as [d'|]; [|exact I]. destruct SAFE as [F S].
         split; [exact F|]. eapply forallb_In; eauto.
@@ -460,14 +454,10 @@ Lemma meth_call_S f m c ch dn nd at_ n :
             match ctor defdt c (firstn k ch) (zero_kw vdt vdev) with Some r => Some (r, n) | None => None end
         | _, _ => None
         end
-      else if cls_eqb c CPermutation then
-        match ch, lookup k_validate_args nd with
-        | [ATensor _; ATensor _], Some _ =>
-            match again c dn ch nd n with
-            | Some (AOp c' ch' dn' nd' at', n') => Some (AOp c' ch' dn' nd' (perm_attrs d at'), n')
-            | _ => None
-            end
-        | _, _ => None
+      else if is_perm_cls c then
+        match keep_or k_dtype (dt_val d) nd with
+        | Some vdt => again c dn ch (set_key k_dtype vdt nd) n
+        | None => None
         end
       else generic
   | MType d =>
@@ -479,7 +469,12 @@ Lemma meth_call_S f m c ch dn nd at_ n :
             | Some r => Some (r, n) | None => None end
         | _, _, _ => None
         end
-      else if cls_eqb c CTransposePermutation then Some (AOp c ch dn nd (set_key k_dtype (VDtype d) at_), n)
+      else if cls_eqb c CTransposePermutation then again c dn ch (set_key k_dtype (VDtype d) nd) n
+      else if cls_eqb c CPermutation then
+        match map_st (on_arg (meth_call defdt f) MClone) ch n with
+        | Some (ch', n') => again c dn ch' (set_key k_dtype (VDtype d) nd) n'
+        | None => None
+        end
       else if cls_eqb c CZero then
         match lookup k_device nd with
         | Some vdev => match ctor defdt c (firstn k ch) (zero_kw (VDtype d) vdev) with Some r => Some (r, n) | None => None end
@@ -652,6 +647,11 @@ Proof.
   unfold guarded. intros H. apply orb_prop in H as [H|H]; [apply orb_prop in H as [H|H]|];
     apply cls_eqb_eq in H; subst; reflexivity.
 Qed.
+Lemma guarded_not_permcls c : guarded c = true -> is_perm_cls c = false.
+Proof.
+  unfold guarded. intros H. apply orb_prop in H as [H|H]; [apply orb_prop in H as [H|H]|];
+    apply cls_eqb_eq in H; subst; reflexivity.
+Qed.
 Lemma guarded_not_perm c : guarded c = true -> cls_eqb c CPermutation = false.
 Proof.
   unfold guarded. intros H. apply orb_prop in H as [H|H]; [apply orb_prop in H as [H|H]|];
@@ -732,7 +732,7 @@ Proof.
     assert (H1 : has_key k_device nd = true) by (eapply dt_key_in_nd; eauto; vm_compute; tauto).
     assert (H2 : has_key k_dtype nd = true) by (eapply dt_key_in_nd; eauto; vm_compute; tauto).
     now apply keys_set2.
-  - rewrite (guarded_not_zero c G). simpl. apply FIN; [reflexivity|exact E].
+  - rewrite (guarded_not_zero c G), (guarded_not_permcls c G). simpl. apply FIN; [reflexivity|exact E].
 Qed.
 
 
@@ -884,8 +884,8 @@ Lemma branch_to_zero d dev ch dn nd at_ n o' n' :
 Proof.
   intros W E. rewrite wfb_op in W. apply andb_prop in W as [NOK _].
   rewrite conv_to_op. change (guarded CZero) with false. change (cls_eqb CZero CCat) with false.
-  change (cls_eqb CZero CPermutation) with false. change (cls_eqb CZero CZero) with true. cbv iota.
-  unfold nd_to. change (keeps_dt CZero) with true. cbv iota.
+  change (rebuilt_kw CZero) with true. cbv iota.
+  unfold nd_to. change (cls_eqb CZero CIdentity || cls_eqb CZero CZero) with true. cbv iota.
   destruct (keep_or k_dtype (dt_val d) nd) as [vdt|]; [|discriminate].
   destruct (keep_or k_device (dev_val dev) nd) as [vdev|]; [|discriminate].
   rewrite (zero_ctor ch dn nd vdt vdev NOK) in E. inversion E; subst. split; [reflexivity|lia].
@@ -905,23 +905,43 @@ Proof.
   rewrite (set_key_same _ _ _ LD). split; [reflexivity|lia].
 Qed.
 
-(* PermutationLinearOperator.to: rebuilt from the very same arguments, then the nominal dtype is assigned *)
-Lemma branch_to_perm d ch dn nd at_ (n : nat) o' (n' : nat) :
-  wfb (AOp CPermutation ch dn nd at_) = true ->
-  match ch, lookup k_validate_args nd with
-  | [ATensor _; ATensor _], Some _ =>
-      match again CPermutation dn ch nd n with
-      | Some (AOp c' ch' dn' nd' at', n') => Some (AOp c' ch' dn' nd' (perm_attrs d at'), n')
-      | _ => None
-      end
-  | _, _ => None
-  end = Some (o', n') ->
-  o' = AOp CPermutation ch dn nd (perm_attrs d (dflt CPermutation)) /\ n' = n.
+(* Permutation / TransposePermutation: to() and type() rebuild from the very same arguments with the dtype keyword *)
+Lemma perm_cls_cases c : is_perm_cls c = true -> c = CPermutation \/ c = CTransposePermutation.
+Proof. unfold is_perm_cls. intros H. apply orb_prop in H as [H|H]; apply cls_eqb_eq in H; auto. Qed.
+Lemma perm_dt_key c ch dn nd : is_perm_cls c = true -> node_okb c ch dn nd = true -> has_key k_dtype nd = true.
 Proof.
-  intros W E. rewrite wfb_op in W. apply andb_prop in W as [NOK _].
-  rewrite (again_ok _ _ _ _ _ NOK) in E.
-  destruct ch as [|[p| |] [|[q| |] [|? ?]]]; try discriminate E.
-  destruct (lookup k_validate_args nd); [|discriminate]. inversion E; subst. split; reflexivity.
+  intros P NOK. apply (dt_key_in_nd c ch dn nd k_dtype NOK); [|reflexivity].
+  destruct (perm_cls_cases c P) as [-> | ->]; vm_compute; tauto.
+Qed.
+Lemma nd_to_perm c d dev nd : is_perm_cls c = true ->
+  nd_to c d dev nd = match keep_or k_dtype (dt_val d) nd with Some vdt => set_key k_dtype vdt nd | None => nd end.
+Proof. intros P. unfold nd_to. rewrite P. destruct (perm_cls_cases c P) as [-> | ->]; reflexivity. Qed.
+
+Lemma branch_to_permcls d dev c ch dn nd at_ (n : nat) o' (n' : nat) :
+  is_perm_cls c = true -> wfb (AOp c ch dn nd at_) = true ->
+  match keep_or k_dtype (dt_val d) nd with
+  | Some vdt => again c dn ch (set_key k_dtype vdt nd) n
+  | None => None
+  end = Some (o', n') ->
+  o' = AOp c ch dn (nd_to c d dev nd) (dflt c) /\ n' = n.
+Proof.
+  intros P W E. rewrite wfb_op in W. apply andb_prop in W as [NOK _].
+  rewrite (nd_to_perm c d dev nd P).
+  destruct (keep_or k_dtype (dt_val d) nd) as [vdt|]; [|discriminate].
+  assert (K : keys (set_key k_dtype vdt nd) = keys nd) by (apply set_key_keys_in; eapply perm_dt_key; eauto).
+  assert (NOK2 : node_okb c ch dn (set_key k_dtype vdt nd) = true) by (now rewrite (node_okb_keys c ch dn nd _ K)).
+  rewrite (again_ok _ _ _ _ _ NOK2) in E. inversion E; subst. split; reflexivity.
+Qed.
+
+Lemma branch_type_set c (ch' : list arg) dn nd d (n : nat) o' (n' : nat) :
+  is_perm_cls c = true -> node_okb c ch' dn nd = true ->
+  again c dn ch' (set_key k_dtype (VDtype d) nd) n = Some (o', n') ->
+  o' = AOp c ch' dn (set_key k_dtype (VDtype d) nd) (dflt c) /\ n' = n.
+Proof.
+  intros P NOK E.
+  assert (K : keys (set_key k_dtype (VDtype d) nd) = keys nd) by (apply set_key_keys_in; eapply perm_dt_key; eauto).
+  assert (NOK2 : node_okb c ch' dn (set_key k_dtype (VDtype d) nd) = true) by (now rewrite (node_okb_keys c ch' dn nd _ K)).
+  rewrite (again_ok _ _ _ _ _ NOK2) in E. inversion E; subst. split; reflexivity.
 Qed.
 
 (* ------------------------------------------------------------------ the theorem *)
@@ -951,21 +971,18 @@ Proof.
         change (guarded CZero) with false in E. change (cls_eqb CZero CCat) with false in E.
         change (cls_eqb CZero CZero) with true in E. cbv iota in E.
         now apply (branch_to_zero d dev ch dn nd at_ n o' n' W0 E). }
-      destruct (cls_eqb c CPermutation) eqn:PERM.
-      { apply cls_eqb_eq in PERM. subst c. rewrite meth_call_S in E. cbv zeta in E.
-        change (guarded CPermutation) with false in E. change (cls_eqb CPermutation CCat) with false in E.
-        change (cls_eqb CPermutation CZero) with false in E. change (cls_eqb CPermutation CPermutation) with true in E.
-        cbv iota in E. unfold conv. rewrite conv_to_op.
-        change (guarded CPermutation) with false. change (cls_eqb CPermutation CCat) with false.
-        change (cls_eqb CPermutation CPermutation) with true. cbv iota.
-        destruct (branch_to_perm d ch dn nd at_ n o' n' W0 E) as [-> ->]. split; [reflexivity|lia]. }
+      destruct (is_perm_cls c) eqn:PERM.
+      { rewrite meth_call_S in E. cbv zeta in E. rewrite G, CAT, ZERO, PERM in E.
+        unfold conv. rewrite conv_to_op, G, CAT. unfold rebuilt_kw. rewrite ZERO, PERM. cbv [orb].
+        destruct (branch_to_permcls d dev c ch dn nd at_ n o' n' PERM W0 E) as [-> ->]. split; [reflexivity|lia]. }
       assert (SA : Forall (fun x => safe_arg (MTo d dev) x = true) ch).
       { destruct d as [d'|]; [|apply forall_true]. rewrite safeb_to_op in S. apply andb_prop in S as [F T].
-        rewrite to_safe_op, G, CAT, PERM, ZERO in T. apply andb_prop in T as [_ T]. apply forallb_Forall in T.
+        rewrite to_safe_op, G, CAT in T. unfold rebuilt_kw in T. rewrite ZERO, PERM in T. cbv [orb] in T.
+        apply andb_prop in T as [_ T]. apply forallb_Forall in T.
         eapply Forall_impl; [|exact T]. simpl. intros a Ha. now rewrite F, Ha. }
       rewrite meth_call_S in E. cbv zeta in E. rewrite G, CAT, ZERO, PERM in E.
       destruct (generic_ok f IH (MTo d dev) c ch dn nd n o' n' (children_ok (MTo d dev) c ch dn nd at_ W0 L0 SA) NOK E) as [C N].
-      split; [|exact N]. rewrite C. unfold conv. rewrite conv_to_op, G, CAT, PERM, ZERO. reflexivity.
+      split; [|exact N]. rewrite C. unfold conv. rewrite conv_to_op, G, CAT. unfold rebuilt_kw. rewrite ZERO, PERM. reflexivity.
   - (* type *)
     simpl in S. apply andb_prop in S as [F T]. apply andb_prop in T as [T TZ]. apply andb_prop in T as [T TI].
     destruct (cls_eqb c CIdentity) eqn:ID.
@@ -974,18 +991,30 @@ Proof.
       destruct (branch_type_identity d ch dn nd at_ n o' n' W0 E) as [C N]. split; [|exact N]. rewrite C.
       simpl in TI. destruct ch; [reflexivity|discriminate].
     + destruct (cls_eqb c CTransposePermutation) eqn:TP.
-      * rewrite meth_call_S in E. cbv zeta in E. rewrite ID, TP in E. inversion E; subst. split; [|lia].
+      * rewrite meth_call_S in E. cbv zeta in E. rewrite ID, TP in E.
+        assert (P : is_perm_cls c = true) by (unfold is_perm_cls; rewrite TP; apply orb_true_r).
+        destruct (branch_type_set c ch dn nd d n o' n' P NOK E) as [-> ->]. split; [|lia].
         apply cls_eqb_eq in TP. subst c. reflexivity.
-      * destruct (cls_eqb c CZero) eqn:ZERO.
-        -- apply cls_eqb_eq in ZERO. subst c. rewrite meth_call_S in E. cbv zeta in E.
-           change (cls_eqb CZero CIdentity) with false in E. change (cls_eqb CZero CTransposePermutation) with false in E.
-           change (cls_eqb CZero CZero) with true in E. cbv iota in E.
-           destruct (branch_type_zero d ch dn nd at_ n o' n' W0 E) as [C N]. split; [|exact N]. rewrite C. reflexivity.
-        -- assert (SA : Forall (fun x => safe_arg (MType d) x = true) ch).
-           { apply forallb_Forall in T. eapply Forall_impl; [|exact T]. simpl. intros a Ha. now rewrite F, Ha. }
-           rewrite meth_call_S in E. cbv zeta in E. rewrite ID, TP, ZERO in E.
-           destruct (generic_ok f IH (MType d) c ch dn nd n o' n' (children_ok (MType d) c ch dn nd at_ W0 L0 SA) NOK E) as [C N].
-           split; [|exact N]. rewrite C. simpl. unfold keeps_dt. now rewrite ID, TP, ZERO.
+      * destruct (cls_eqb c CPermutation) eqn:PM.
+        -- assert (P : is_perm_cls c = true) by (unfold is_perm_cls; now rewrite PM).
+           rewrite meth_call_S in E. cbv zeta in E. rewrite ID, TP, PM in E.
+           assert (K : keys (set_key k_dtype (VDtype d) nd) = keys nd) by (apply set_key_keys_in; eapply perm_dt_key; eauto).
+           assert (NOK2 : node_okb c ch dn (set_key k_dtype (VDtype d) nd) = true) by (now rewrite (node_okb_keys c ch dn nd _ K)).
+           destruct (generic_ok' f IH MClone c ch dn (set_key k_dtype (VDtype d) nd) n o' n'
+                       (children_ok MClone c ch dn nd at_ W0 L0 (forall_true ch)) NOK2 E) as (ch' & _ & -> & C & N).
+           split; [|exact N]. rewrite strip_op, C. apply cls_eqb_eq in PM. subst c. simpl. f_equal.
+           rewrite strip_list_map. apply map_ext_Forall. pose proof (lossless_list_Forall ch LL) as LF.
+           eapply Forall_impl; [|exact LF]. intros a La. now apply lmap_blank_lossless.
+        -- destruct (cls_eqb c CZero) eqn:ZERO.
+           ++ apply cls_eqb_eq in ZERO. subst c. rewrite meth_call_S in E. cbv zeta in E.
+              change (cls_eqb CZero CIdentity) with false in E. change (cls_eqb CZero CTransposePermutation) with false in E.
+              change (cls_eqb CZero CPermutation) with false in E. change (cls_eqb CZero CZero) with true in E. cbv iota in E.
+              destruct (branch_type_zero d ch dn nd at_ n o' n' W0 E) as [C N]. split; [|exact N]. rewrite C. reflexivity.
+           ++ assert (SA : Forall (fun x => safe_arg (MType d) x = true) ch).
+              { apply forallb_Forall in T. eapply Forall_impl; [|exact T]. simpl. intros a Ha. now rewrite F, Ha. }
+              rewrite meth_call_S in E. cbv zeta in E. rewrite ID, TP, PM, ZERO in E.
+              destruct (generic_ok f IH (MType d) c ch dn nd n o' n' (children_ok (MType d) c ch dn nd at_ W0 L0 SA) NOK E) as [C N].
+              split; [|exact N]. rewrite C. simpl. unfold keeps_dt, is_perm_cls. now rewrite ID, TP, PM, ZERO.
 Qed.
 
 
